@@ -8,6 +8,7 @@ import (
 	"runtime"
 	"strings"
 	"sync/atomic"
+	"testing"
 	"time"
 
 	"verif/simkit"
@@ -74,6 +75,10 @@ func classifyStall(stacks []stackInfo) (lockedUp bool, class, detail, harnessWhy
 		if !strings.Contains(s.state, "synctest bubble") {
 			continue
 		}
+		if strings.HasPrefix(s.state, "running") || strings.HasPrefix(s.state, "runnable") {
+			// something can still run: slow, not locked up
+			return false, "", "", ""
+		}
 		inHarnessSleep := false
 		for _, f := range s.frames {
 			if strings.HasPrefix(f, "time.Sleep(") {
@@ -81,9 +86,19 @@ func classifyStall(stacks []stackInfo) (lockedUp bool, class, detail, harnessWhy
 			}
 		}
 		if inHarnessSleep && strings.HasPrefix(s.state, "sleep") {
+			// only a sleep reached from inside the client (through a hook of the
+			// harness: statement latency, scheduling-point delay) can hold a
+			// client lock; a harness goroutine of its own that polls with a
+			// sleep holds none
+			below := false
 			for _, f := range s.frames {
-				if strings.HasPrefix(f, "verif/") {
-					harnessWhy = "a goroutine sleeps inside the harness (" + strings.SplitN(f, "(", 2)[0] + ") while the clock cannot advance"
+				if clientFrameRe.MatchString(f) {
+					below = true
+				}
+			}
+			for _, f := range s.frames {
+				if below && strings.HasPrefix(f, "verif/") {
+					harnessWhy = "a goroutine sleeps inside the harness (" + strings.SplitN(f, "(", 2)[0] + ") below client code while the clock cannot advance"
 				}
 			}
 		}
@@ -158,6 +173,15 @@ func startStallObserver(prop string, seed uint64, plan func() []byte, out string
 			}
 			stacks := allStacks()
 			locked, class, detail, why := classifyStall(stacks)
+			if locked {
+				// look twice: the same picture a little later, and still no progress
+				time.Sleep(3 * time.Second)
+				l2, c2, _, _ := classifyStall(allStacks())
+				if !l2 || c2 != class || atomic.LoadInt64(&c20Progress) != last {
+					lastMove = time.Now()
+					continue
+				}
+			}
 			if !locked {
 				if why == "" {
 					continue // slow, or stuck elsewhere: the watchdog decides
@@ -169,11 +193,8 @@ func startStallObserver(prop string, seed uint64, plan func() []byte, out string
 				}
 				os.Exit(2)
 			}
-			res := &Result{Property: prop, Seed: seed, Plan: plan(), Faults: map[string]int{}, Probes: map[string]int{"c20-lock-up-observed": 1},
+			res := &Result{Property: prop, Seed: seed, Plan: plan(), Faults: map[string]int{}, Probes: map[string]int{"lock-up-observed": 1},
 				Violations: []simkit.Violation{{Property: prop, Clause: "termination", Class: class, Detail: detail}}, Components: atComponents}
-			if k := loadKnown(prop); k != nil {
-				_ = k
-			}
 			b, _ := json.Marshal(res)
 			if out != "" {
 				os.WriteFile(out, b, 0o644)
@@ -182,4 +203,48 @@ func startStallObserver(prop string, seed uint64, plan func() []byte, out string
 			os.Exit(1)
 		}
 	}()
+}
+
+// ---- the same observer for the engines that run under the seeded scheduler ----
+//
+// There a client goroutine that waits for ever on a client mutex keeps
+// synctest.Wait from returning: the run stops dead in real time, which used to
+// end in the watchdog's "harness trouble". The scheduler ticks the progress
+// counter once per iteration; when nothing moves, the stacks decide as above.
+// The plan and the choices made so far are written out so that the replay
+// reaches the same lock-up.
+
+var stallPlanObj atomic.Value // func() any
+
+// runBubbleP is runBubble for an engine with a plan (kept for the observer).
+func runBubbleP(t *testing.T, plan any, f func(t *testing.T)) string {
+	stallPlanObj.Store(func() any { return plan })
+	return runBubble(t, f)
+}
+
+func stallPlanJSON() []byte {
+	f, _ := stallPlanObj.Load().(func() any)
+	if f == nil {
+		return nil
+	}
+	b, err := json.Marshal(f())
+	if err != nil {
+		return nil
+	}
+	tp := simkit.CurrentTape.Load()
+	if tp == nil {
+		return b
+	}
+	var m map[string]json.RawMessage
+	if json.Unmarshal(b, &m) != nil {
+		return b
+	}
+	if _, has := m["tape"]; has {
+		rec, _ := json.Marshal(tp.Rec)
+		m["tape"] = rec
+		if b2, err := json.Marshal(m); err == nil {
+			return b2
+		}
+	}
+	return b
 }
